@@ -1,2 +1,56 @@
 ; Spec vocabulary shared by all contracts (DESIGN.md section 4).
 ; Lines starting with ";@spec" register a function for use in contract expressions.
+; Everything here is written from the file-format description in the property
+; statements (C14 anchors), not from the code.
+
+; ---- shifted block copy between byte arrays: dst with src[so .. so+n) copied to dst[do .. do+n) ----
+(declare-fun shiftcopy ((Array Int Int) (Array Int Int) Int Int Int) (Array Int Int))
+(assert (forall ((d (Array Int Int)) (s (Array Int Int)) (so Int) (do Int) (n Int) (j Int))
+  (! (= (select (shiftcopy d s so do n) j) (ite (and (<= do j) (< j (+ do n))) (select s (+ so (- j do))) (select d j)))
+     :pattern ((select (shiftcopy d s so do n) j)))))
+; c[do .. do+n) agrees with f[so .. so+n)  (absolute indices; trigger on plain reads of c)
+(define-fun agree ((c (Array Int Int)) (f (Array Int Int)) (so Int) (do Int) (n Int)) Bool
+  (forall ((j Int)) (! (=> (and (<= do j) (< j (+ do n))) (= (select c j) (select f (+ so (- j do))))) :pattern ((select c j)))))
+;@spec agree smt=agree args=(Array_Int_Int),(Array_Int_Int),Int,Int,Int res=Bool
+;@spec shiftcopy smt=shiftcopy args=(Array_Int_Int),(Array_Int_Int),Int,Int,Int res=(Array_Int_Int)
+
+; ---- big-endian fields of a byte array (file content or buffer content) ----
+(define-fun fbe32 ((f (Array Int Int)) (o Int)) Int
+  (+ (* 16777216 (select f o)) (* 65536 (select f (+ o 1))) (* 256 (select f (+ o 2))) (select f (+ o 3))))
+(define-fun fbe64 ((f (Array Int Int)) (o Int)) Int
+  (+ (* 72057594037927936 (select f o)) (* 281474976710656 (select f (+ o 1))) (* 1099511627776 (select f (+ o 2))) (* 4294967296 (select f (+ o 3)))
+     (* 16777216 (select f (+ o 4))) (* 65536 (select f (+ o 5))) (* 256 (select f (+ o 6))) (select f (+ o 7))))
+; two's complement reading of an unsigned 64-bit value
+(define-fun s64 ((u Int)) Int (ite (>= u 9223372036854775808) (- u 18446744073709551616) u))
+;@spec fbe32 smt=fbe32 args=(Array_Int_Int),Int res=Int
+;@spec fbe64 smt=fbe64 args=(Array_Int_Int),Int res=Int
+;@spec s64 smt=s64 args=Int res=Int
+
+; ---- root record framing (version 4) ----
+; "0g1t2r" = 48 103 49 116 50 114     "3e4a5p" = 51 101 52 97 53 112
+(define-fun magicBegAt ((f (Array Int Int)) (o Int)) Bool
+  (and (= (select f o) 48) (= (select f (+ o 1)) 103) (= (select f (+ o 2)) 49) (= (select f (+ o 3)) 116) (= (select f (+ o 4)) 50) (= (select f (+ o 5)) 114)
+       (= (select f (+ o 6)) 48) (= (select f (+ o 7)) 103) (= (select f (+ o 8)) 49) (= (select f (+ o 9)) 116) (= (select f (+ o 10)) 50) (= (select f (+ o 11)) 114)))
+; p is the END offset of the record: the last 12 bytes are the doubled end marker
+(define-fun magicEndAt ((f (Array Int Int)) (p Int)) Bool
+  (and (= (select f (- p 12)) 51) (= (select f (- p 11)) 101) (= (select f (- p 10)) 52) (= (select f (- p 9)) 97) (= (select f (- p 8)) 53) (= (select f (- p 7)) 112)
+       (= (select f (- p 6)) 51) (= (select f (- p 5)) 101) (= (select f (- p 4)) 52) (= (select f (- p 3)) 97) (= (select f (- p 2)) 53) (= (select f (- p 1)) 112)))
+;@spec magicBegAt smt=magicBegAt args=(Array_Int_Int),Int res=Bool
+;@spec magicEndAt smt=magicEndAt args=(Array_Int_Int),Int res=Bool
+
+; encoding/json accepts bytes [lo, lo+n) of f as a map name -> {"o":..,"l":..} (trusted, A8)
+(declare-fun jsonOKAt ((Array Int Int) Int Int) Bool)
+;@spec jsonOKAt smt=jsonOKAt args=(Array_Int_Int),Int,Int res=Bool
+
+; a root record starting at o with recorded length l ends exactly at p and is well framed
+(define-fun rootFramed ((f (Array Int Int)) (p Int) (o Int) (l Int)) Bool
+  (and (>= o 0) (< o (- p 44)) (= l (mod (- p o) 4294967296))
+       (magicBegAt f o) (= (fbe32 f (+ o 12)) 4) (= (fbe32 f (+ o 16)) l)
+       (jsonOKAt f (+ o 20) (- (- p o) 44))))
+;@spec rootFramed smt=rootFramed args=(Array_Int_Int),Int,Int,Int res=Bool
+
+; "a complete, self-consistent root record ends at p"
+(define-fun validRootEndingAt ((f (Array Int Int)) (p Int)) Bool
+  (and (> p 44) (magicEndAt f p)
+       (rootFramed f p (s64 (fbe64 f (- p 24))) (fbe32 f (- p 16)))))
+;@spec validRootEndingAt smt=validRootEndingAt args=(Array_Int_Int),Int res=Bool
